@@ -51,7 +51,8 @@ enum {
     OP_SETLEN,     /* a x=len (Hsetlength on a new element) */
     OP_HLCONVERT,  /* a x=block_len y=nblocks */
     OP_REUSE,      /* e : HDreuse_tagref */
-    OP_NEWREF,     /* Hnewref: result must not be a live ref */
+    OP_NEWREF,     /* Htagnewref: result must not be a live ref of the tag */
+    OP_HNEWREF,    /* Hnewref: result must not be a live ref of ANY tag (file-wide allocator) */
     OP_END
 };
 
@@ -645,6 +646,15 @@ harness(void)
                 for (k = 0; k < NEL; k++)
                     if (G[k].exists && TAG[k] == TAG[e])
                         H4V_ASSERT(REF[k] != r, "H.newref.inuse: newly issued reference is already in use for the tag");
+                break;
+            }
+            case OP_HNEWREF: {
+                uint16 r = Hnewref(fid);
+                int    k;
+                H4V_ASSERT(r != 0, "H.hnewref.zero: no reference issued although references are free");
+                for (k = 0; k < NEL; k++)
+                    if (G[k].exists)
+                        H4V_ASSERT(REF[k] != r, "H.hnewref.inuse: newly issued reference is already in use in the file");
                 break;
             }
             case OP_CHECKALL:
